@@ -8,10 +8,14 @@ SRC=/tmp/seed-$ID-out/$V
 [[ $V == d ]] && SRC=/tmp/seed2-$ID-out/b
 [[ -d /verif/seeded/$ID-$V ]] && SRC=/verif/seeded/$ID-$V
 D=$(mktemp -d /tmp/vf-seed-XXXXXX)
-rsync -a --exclude .git --exclude __pycache__ /repo/ "$D/"
+if [[ -n "${BASE:-}" ]]; then git -C /repo archive "$BASE" | tar -x -C "$D"; echo "(base tree: $BASE)"; else rsync -a --exclude .git --exclude __pycache__ /repo/ "$D/"; fi
 cd "$D"
 d0=$(PYTHONPATH=$D timeout 120 /venv/bin/python $SRC/demo.py >/dev/null 2>&1; echo $?)
-if ! patch -p1 -s < $SRC/patch.diff; then echo "$ID-$V: PATCH DOES NOT APPLY"; rm -rf "$D"; exit 9; fi
+if ! patch -p1 -s < $SRC/patch.diff >/dev/null 2>&1; then
+  # written against an earlier /repo HEAD: fall back to the commit the sub-agents worked on
+  cd /; rm -rf "$D"; D=$(mktemp -d /tmp/vf-seed-XXXXXX); git -C /repo archive d4fc671 | tar -x -C "$D"; cd "$D"; echo "(patch needs base tree d4fc671)"
+  if ! patch -p1 -s < $SRC/patch.diff; then echo "$ID-$V: PATCH DOES NOT APPLY"; rm -rf "$D"; exit 9; fi
+fi
 t=$(timeout 600 /venv/bin/python -m pytest -q -p no:cacheprovider 2>&1 | tail -1)
 d1=$(PYTHONPATH=$D timeout 120 /venv/bin/python $SRC/demo.py >/dev/null 2>&1; echo $?)
 echo "$ID-$V: tests[$t] demo_without=$d0 demo_with=$d1"
